@@ -87,6 +87,7 @@ HexSeedDef(k) ==
     [] k = 6 -> [nv |-> 12, cubes |-> << <<GCube(1,1,0,0,0), 1>>, <<GCube(1,1,0,0,1), 9>> >>]   \* stacked in z (the suite's fixture shape)
     [] k = 7 -> [nv |-> 27, cubes |-> [n \in 1 .. 8 |-> <<GCube(2,2,(n-1) % 2, ((n-1) \div 2) % 2, (n-1) \div 4), ((n * 7) % 24) + 1>>]]
     [] k = 8 -> [nv |-> 24, cubes |-> [n \in 1 .. 6 |-> <<GCube(3,2,(n-1) % 3, (n-1) \div 3, 0), ((n * 5) % 24) + 1>>]]
+    [] k = 9 -> [nv |-> 64, cubes |-> [n \in 1 .. 27 |-> <<GCube(3,3,(n-1) % 3, ((n-1) \div 3) % 3, (n-1) \div 9), ((n * 11) % 24) + 1>>]]  \* 3x3x3: an interior cell
 HV(l) == KLF("hex_add_cell_v", l, TRUE)
 HexSeed(k) == LET d == HexSeedDef(k) IN
   NV(d.nv) \o [n \in 1 .. Len(d.cubes) |-> HV(RotList(d.cubes[n][1], d.cubes[n][2]))]
